@@ -37,6 +37,10 @@ func init() {
 	extendProp("C13", "(R13.9) the list on which the Gateway provider chooses between generated match rules and weighted backends is the step's own matches on every path (matches take precedence when a step sets both).", r6C13)
 	extendProp("C17", "(R17.10) no function of the Deployment controller writes through a *ReplicaSet / []*ReplicaSet parameter (map update, store through a pointer field, directly or via a callee) unless a DeepCopy lies in between: these objects are the informer cache's, and the scaling arithmetic of the next sync reads them.", r6C17)
 	extendProp("C17", "(R17.11) cleanupUnhealthyReplicas skips an old ReplicaSet only when its spec is 0 or equals its available count exactly; a ReplicaSet reporting more available pods than its spec stops the pass (its status lags behind a scale-down already made).", r6C17b)
+	extendProp("C07", "(R7.10) the BatchRelease controller's workload event handler gives up before looking up the referring BatchRelease only for an unrecognised kind, an unchanged resourceVersion, or an unchanged generation and status: the wake-up of a BatchRelease parked without requeue depends on it.", r6C07)
+	extendProp("C07", "(R7.11) a control plane that refreshes a field of release.Status (the copy its own calculations read) stores the same value into newStatus (the copy that is persisted) on the same paths: otherwise the target computed in this pass and the readiness check of the next pass use different numbers and the batch can oscillate for ever.", r6C07b)
+	extendProp("C14", "(R14.10) in both step machines a step with neither weight nor matches reaches the code of ANY sub-state only after FinalisingTrafficRouting reported done — not just the Init sub-state: steps can be entered directly in TrafficRouting by a jump.", r6C14)
+	extendProp("C14", "(R14.11) buildCanaryIngress copies a path into the canary rule under conditions on that path's backend alone (it is a Service backend and names the stable Service): host, position or anything else about the rule cannot exclude a path of the stable Service.", r6C14b)
 	extendProp("C08", "(R8.10) both admission handlers answer 'this workload is not selected by the webhook configuration' only after every entry and rule was examined (or the entry's selector cannot be parsed): the first entry whose rule matches does not decide alone.", r6C08)
 }
 
@@ -739,4 +743,199 @@ func r6C17b(c *Ctx) {
 		}
 	}
 	c.Ob("R17.11", "cleanupUnhealthyReplicas#skip-only-when-exact", fn.Pos(), n > 0 && bad == "", "an old ReplicaSet is passed over only when empty or when spec equals the available count", bad+ifs(n == 0, "loop over the old ReplicaSets not found"))
+}
+
+// ---------------------------------------------------------------- C07 R7.10
+
+func r6C07(c *Ctx) {
+	p := c.Prog
+	c.Rule("R7.10", "a workload event of a recognised kind always looks up the BatchRelease to wake", 2)
+	lookup := func(in ssa.Instruction) bool {
+		ci, ok := in.(ssa.CallInstruction)
+		if !ok {
+			return false
+		}
+		for _, g := range p.Callees(ci) {
+			if g.Name() == "getBatchRelease" {
+				return true
+			}
+		}
+		return false
+	}
+	unchanged := FOr(
+		FCmp("==", MCall("GetResourceVersion"), MCall("GetResourceVersion")),
+		FTrue(MCall("reflect.DeepEqual")),
+	)
+	for _, name := range []string{"pkg/controller/batchrelease.workloadEventHandler.Update", "pkg/controller/batchrelease.workloadEventHandler.handleWorkload"} {
+		fn := p.Func(name)
+		if fn == nil {
+			c.Unresolved("R7.10", name)
+			continue
+		}
+		n := 0
+		bad := ""
+		isRet := func(in ssa.Instruction) bool { _, ok := in.(*ssa.Return); return ok && in.Block() != fn.Recover }
+		for _, b := range fn.Blocks {
+			if len(b.Instrs) == 0 {
+				continue
+			}
+			iff, ok := b.Instrs[len(b.Instrs)-1].(*ssa.If)
+			if !ok {
+				continue
+			}
+			ex, ok := iff.Cond.(*ssa.Extract)
+			if !ok {
+				continue
+			}
+			if _, isTA := ex.Tuple.(*ssa.TypeAssert); !isTA {
+				continue
+			}
+			n++
+			if reach, at := CanReach(Point{Block: b.Succs[0]}, isRet, ReachOpts{CutInstr: lookup, CutEdge: func(bb *ssa.BasicBlock, k int) bool { return EdgeFactMatches(bb, k, unchanged) }}); reach {
+				bad = "the handler can return at " + p.Pos(at.Pos()) + " for a workload of a recognised kind whose generation or status changed, without having looked up the BatchRelease that refers to it: a BatchRelease parked without a requeue (workload generation not yet observed, control annotation not yet written) is then never woken"
+			}
+		}
+		c.Ob("R7.10", shortName(name)+"#always-looks-up", fn.Pos(), n > 0 && bad == "", "every changed workload of a recognised kind reaches getBatchRelease (which falls back to the workloadRef when the control annotation is absent)", bad+ifs(n == 0, "type switch over the workload kinds not found"))
+	}
+}
+
+// ---------------------------------------------------------------- C07 R7.11
+
+func r6C07b(c *Ctx) {
+	p := c.Prog
+	c.Rule("R7.11", "what a control plane writes into the BatchRelease's read copy of the status it also writes into the status that is persisted", 1)
+	hasSeq := func(path []string, a, b string) bool {
+		for i := 0; i+1 < len(path); i++ {
+			if path[i] == a && path[i+1] == b {
+				return true
+			}
+		}
+		return false
+	}
+	n := 0
+	for _, fn := range p.RepoFuncs() {
+		if !strings.HasPrefix(FuncName(fn), "pkg/controller/batchrelease/control/") {
+			continue
+		}
+		type st struct {
+			in   *ssa.Store
+			path []string
+		}
+		var readCopy, persisted []st
+		for _, b := range fn.Blocks {
+			for _, in := range b.Instrs {
+				s, ok := in.(*ssa.Store)
+				if !ok {
+					continue
+				}
+				if _, isFA := s.Addr.(*ssa.FieldAddr); !isFA {
+					continue
+				}
+				_, path := TermOf(s.Addr).FieldPath()
+				if len(path) > 0 && path[0] == "*" {
+					path = path[1:]
+				}
+				if hasSeq(path, "release", "Status") {
+					readCopy = append(readCopy, st{s, path})
+				}
+				for _, x := range path {
+					if x == "newStatus" {
+						persisted = append(persisted, st{s, path})
+					}
+				}
+			}
+		}
+		for _, rcp := range readCopy {
+			n++
+			leaf := rcp.path[len(rcp.path)-1]
+			ok := false
+			for _, ps := range persisted {
+				if ps.path[len(ps.path)-1] != leaf || Forwarded(ps.in.Val) != Forwarded(rcp.in.Val) {
+					continue
+				}
+				// the two stores go together: neither is reachable from the entry without the other having
+				// happened or still to come on every path to a return
+				isRet := func(in ssa.Instruction) bool { _, r := in.(*ssa.Return); return r }
+				r1, _ := CanReach(PointAfter(rcp.in), isRet, ReachOpts{CutInstr: func(in ssa.Instruction) bool { return in == ssa.Instruction(ps.in) }})
+				before, _ := CanReach(Entry(fn), func(in ssa.Instruction) bool { return in == ssa.Instruction(rcp.in) }, ReachOpts{CutInstr: func(in ssa.Instruction) bool { return in == ssa.Instruction(ps.in) }})
+				if !r1 || !before {
+					ok = true
+				}
+			}
+			c.Ob("R7.11", FuncName(fn)+"#mirror("+leaf+")", rcp.in.Pos(), ok, "status."+leaf+" written to the read copy is written to newStatus as well",
+				ifs(!ok, "release.Status."+strings.Join(rcp.path[2:], ".")+" is refreshed here but newStatus (the status that is persisted) is not: the value used to compute this pass's target and the value the next pass reads from the stored object differ, and a readiness check that reads the stored one can disagree with the target for ever"))
+		}
+	}
+	if n == 0 {
+		c.Unresolved("R7.11", "a store into release.Status in the control planes")
+	}
+}
+
+// ---------------------------------------------------------------- C14 R14.10
+
+func r6C14(c *Ctx) {
+	p := c.Prog
+	c.Rule("R14.10", "a step that routes nothing has the previous step's routing withdrawn before any sub-state acts", 2)
+	routes := FOr(FNotNil(MField("Traffic")), FCmp(">", MLen(MField("Matches")), MConst("0")), FCmp("!=", MLen(MField("Matches")), MConst("0")), FCmp(">=", MLen(MField("Matches")), MConst("1")))
+	cleaned := FTrue(MResult("FinalisingTrafficRouting", 0))
+	inState := FCmp("==", MField("CurrentStepState"), MIsConst())
+	for _, fn := range p.FuncsMatching("runCanary") {
+		if fn.Signature.Recv() == nil {
+			continue
+		}
+		if len(CallsIn(fn, "trafficrouting.Manager.FinalisingTrafficRouting")) == 0 {
+			c.Ob("R14.10", FuncName(fn)+"#cleanup-before-states", fn.Pos(), false, "FinalisingTrafficRouting call of the step machine", "anchor not found")
+			continue
+		}
+		stateCase := func(in ssa.Instruction) bool {
+			b := in.Block()
+			return in == b.Instrs[0] && HasFact(FactsFor(fn).At(b), inState)
+		}
+		reach, at := CanReach(Entry(fn), stateCase, ReachOpts{CutEdge: func(b *ssa.BasicBlock, k int) bool {
+			return EdgeFactMatches(b, k, routes) || EdgeFactMatches(b, k, cleaned)
+		}})
+		detail := ""
+		if reach {
+			detail = "the sub-state code at " + p.Pos(at.Pos()) + " is reachable for a step with neither weight nor matches without FinalisingTrafficRouting having reported done: a step entered in a later sub-state (a jump between steps of equal replicas, a plan change) keeps the canary Ingress / route of the earlier traffic step while the rollout sits in a step that declares no routing"
+		}
+		c.Ob("R14.10", FuncName(fn)+"#cleanup-before-states", fn.Pos(), !reach, "for a step without weight and matches every sub-state is preceded by a completed FinalisingTrafficRouting", detail)
+	}
+}
+
+// ---------------------------------------------------------------- C14 R14.11
+
+func r6C14b(c *Ctx) {
+	p := c.Prog
+	c.Rule("R14.11", "every path of the stable Ingress that points at the stable Service is copied into the canary Ingress", 1)
+	fn := p.Func("pkg/trafficrouting/network/ingress.ingressController.buildCanaryIngress")
+	if fn == nil {
+		c.Unresolved("R14.11", "ingressController.buildCanaryIngress")
+		return
+	}
+	n := 0
+	bad := ""
+	for _, ci := range AllCalls(fn) {
+		bi, ok := ci.Common().Value.(*ssa.Builtin)
+		if !ok || bi.Name() != "append" || len(ci.Common().Args) < 2 {
+			continue
+		}
+		if t := TermOf(ci.Common().Args[0]); !(MField("Paths")(t) || t.Any(MField("Paths"))) {
+			continue
+		}
+		n++
+		for _, f := range FactsFor(fn).At(ci.Block()) {
+			if isLoopExitFact(f) || f.If == nil || f.If.Parent() != fn {
+				continue // not a branch of this function (inherited from the caller, implied by a helper)
+			}
+			about := func(t *Term) bool {
+				return t != nil && (t.Any(func(x *Term) bool { return x.Op == "field" && (x.Name == "Service" || x.Name == "HTTP") }))
+			}
+			isLen := func(t *Term) bool { return t != nil && t.Op == "len" }
+			if about(f.L) || about(f.R) || isLen(f.L) || isLen(f.R) {
+				continue // about the backend, or the counted loop's own test
+			}
+			bad = "the copy at " + p.Pos(ci.Pos()) + " is made only under " + f.String() + ", a condition that says nothing about the path's backend: a path of the stable Service that fails it is left out of the canary Ingress (or the rule is written with no paths at all, which the API server rejects)"
+		}
+	}
+	c.Ob("R14.11", "buildCanaryIngress#every-stable-path-copied", fn.Pos(), n > 0 && bad == "", "the canary path is appended under conditions on the path's backend only", bad+ifs(n == 0, "append to the canary rule's paths not found"))
 }
